@@ -15,6 +15,12 @@ workers is the configured number (persistent-process runner), `max_processes`
 holds at least that much work), free slots are restored and new queued work is
 claimed (process runner); dead workers are forgotten; every runner id passed to
 `register_runner_heartbeats` belongs to a worker that is alive at that moment.
+
+Second stratum (threaded engine): the PersistentProcessRunner again, this time
+with its workers as simulated *processes* running the real
+`persistent_process_main` on the SQLite stack (own Pynenc object, own
+connections); workers are SIGKILLed in seeded bursts while work is queued.  Same
+oracle one virtual second (ten parent loop iterations) after the last death.
 """
 
 from __future__ import annotations
@@ -29,15 +35,15 @@ from workloads import simtasks
 
 PROPERTY = "C14"
 LEVEL = "fault_enumeration"
-ENGINES = ["A"]
-TECHNIQUE = "deterministic simulation with fault injection: real start / loop-iteration / heartbeat code of the three process runners over stand-in process objects; seeded worker-death sequences between loop iterations; capacity and heartbeat oracle"
+ENGINES = ["A", "B"]
+TECHNIQUE = "deterministic simulation with fault injection: real start / loop-iteration / heartbeat code of the three process runners over stand-in process objects; seeded worker-death sequences between loop iterations, and (persistent-process runner) seeded SIGKILLs of simulated worker processes running the real worker main; capacity and heartbeat oracle"
 LEVEL_TEXT = (
     "Each run picks a runner class and pool configuration, starts it through the real on_start, and alternates the real loop body with "
     "seeded death bursts (subsets of the live pool, all at once, repeated) for 4-10 rounds; three quiet iterations after the last burst the "
     "pool must be back at capacity, no dead worker may still be tracked, and no heartbeat may ever have been reported for a dead worker. "
     "Death sequences and configurations are sampled; the loop code is the runners' own."
 )
-LEVEL_NOTE = "Trusted: the stand-ins for multiprocessing.Process / Manager / cpu_count (liveness = fault plan; the worker main is not executed), the capacity rule per runner as documented in docs/reference/runners.md and config_runner.py. Pickling of apps / tasks across spawn is not exercised."
+LEVEL_NOTE = "Trusted: the stand-ins for multiprocessing.Process / Manager / cpu_count (stratum deaths: liveness = fault plan, the worker main is not executed; stratum ppr-live-workers: a worker is a simulated process executing the real worker main), the capacity rule per runner as documented in docs/reference/runners.md and config_runner.py. Pickling of apps / tasks across spawn is not exercised."
 MINIMIZE = None
 RULE = (
     "one run = runner in {MultiThreadRunner, PersistentProcessRunner, ProcessRunner} x pool size 1-4 x enforce on/off x queue empty/loaded x "
@@ -48,8 +54,8 @@ ASSUMPTIONS = [
     "multi-thread runner with enforce_max_processes off scales by queue length: capacity is only required while the queue holds at least max_processes invocations",
 ]
 REAL = ["MultiThreadRunner / PersistentProcessRunner / ProcessRunner: on_start, runner_loop_iteration, get_active_child_runner_ids", "BaseRunner._report_child_runner_heartbeats", "SQLite orchestrator (heartbeats, claims)", "broker"]
-STUBBED = ["multiprocessing.Process / Manager / cpu_count (stand-ins)", "worker main functions (not executed)", "clock"]
-PROBES = ["death_burst", "all_workers_died", "respawned", "heartbeat_reports"]
+STUBBED = ["multiprocessing.Process / Manager / cpu_count (stand-ins)", "worker main functions (not executed in stratum deaths; real persistent_process_main in stratum ppr-live-workers)", "clock"]
+PROBES = ["death_burst", "all_workers_died", "respawned", "heartbeat_reports", "work_not_finished_after_deaths"]
 
 
 class FakeProcess:
@@ -102,14 +108,114 @@ class FakeManager:
 
 def plan(tier: str) -> list[dict]:
     q = tier == "quick"
-    return [{"stratum": "deaths", "runs": 192 if q else 9000, "params": {}, "chunk": 12 if q else 225}]
+    return [
+        {"stratum": "deaths", "runs": 192 if q else 9000, "params": {}, "chunk": 12 if q else 225},
+        {"stratum": "ppr-live-workers", "runs": 64 if q else 3000, "params": {"mode": "live"}, "chunk": 4 if q else 100},
+    ]
 
 
 def warmup() -> None:
     run(0, {})
 
 
+def _run_live(seed: int, replay: dict | None) -> dict:
+    """Engine B: a PersistentProcessRunner whose workers are simulated processes running the real
+    persistent_process_main on the SQLite stack; seeded SIGKILLs of workers (one, several, all at once,
+    repeatedly) while work is queued; afterwards the pool is back at capacity, the dead are forgotten,
+    heartbeats were only ever reported for live workers, and all queued work completes."""
+    import random
+
+    from workloads import gen
+    from workloads.deploy import Deployment
+
+    rng = random.Random(f"{seed}:c14live")
+    n_workers = rng.choice([1, 2, 2, 3])
+    policy = rng.choice(["rand", "rand", "rr"])
+    parg = {"rand": rng.choice([0.1, 0.3]), "rr": rng.choice([1, 3])}[policy]
+    n_bursts = rng.randint(1, 3)
+    bursts = [(rng.choice([0.05, 0.2, 0.5, 1.0]), rng.choice(["one", "one", "some", "all"])) for _ in range(n_bursts)]
+    names = gen.Names()
+    roots = [gen.gen_prog(rng, names, depth=0, p_fail=0.0, work=(0.05, 0.2, 0.5)) for _ in range(rng.randint(3, 7))]
+    schedule = replay.get("schedule") if replay else None
+    viol: list[dict] = []
+    conf = {"runner_loop_sleep_time_sec": 0.1, "max_pending_seconds": 2.0, "runner_considered_dead_after_minutes": 0.05, "atomic_service_interval_minutes": 0.1, "atomic_service_spread_margin_minutes": 0.01, "atomic_service_check_interval_minutes": 0.02, "recover_pending_invocations_cron": "* * * * *", "recover_running_invocations_cron": "* * * * *"}
+    with Deployment(seed, "sqlite", 1, clients=["c"], services=True, ppr={"r1": n_workers}, policy=policy, policy_arg=parg, schedule=schedule, max_steps=600_000, max_time=260.0, delta=2e-3, conf=conf) as d:
+        sim = d.sim
+        d.register(simtasks.prog, max_retries=2)
+        parent = d.runners["r1"]
+        hb_bad: list[str] = []
+        killed: list[str] = []
+        papp = d.app("r1")
+        orig_hb = papp.orchestrator.register_runner_heartbeats
+
+        def hb(runner_ids: list[str], can_run_atomic_service: bool = False) -> None:
+            sim.bump("probe.heartbeat_reports")
+            dead_ids = {p.kwargs.get("child_runner_id") for p in d.worker_procs.values() if not p.is_alive()}
+            for rid in runner_ids:
+                if rid in dead_ids:
+                    hb_bad.append(rid)
+            return orig_hb(runner_ids, can_run_atomic_service)
+
+        papp.orchestrator.register_runner_heartbeats = hb
+        out: dict[str, Any] = {}
+
+        def client() -> None:
+            t = d.task("c", "prog")
+            ids = [str(t(r).invocation_id) for r in roots]
+            out["ids"] = ids
+            for gap, how in bursts:
+                sim.sleep(gap)
+                alive = [p for p in d.worker_procs.values() if p.is_alive()]
+                if not alive:
+                    continue
+                k = 1 if how == "one" else (len(alive) if how == "all" else rng.randint(1, len(alive)))
+                victims = rng.sample(alive, k)
+                for p in victims:
+                    killed.append(p.name)
+                    sim.crash_actor(p.actor, "SIGKILL (worker death burst)")
+                sim.bump("probe.death_burst")
+                if k == len(alive):
+                    sim.bump("probe.all_workers_died")
+            # quiet period: the parent loop must restore the pool (a few iterations), then the work must finish
+            sim.sleep(1.0)
+            out["alive_after_quiet"] = sum(1 for p in parent.child_runner_ids.values() if p.is_alive())
+            out["dead_tracked"] = sum(1 for p in parent.child_runner_ids.values() if not p.is_alive())
+            out["final"] = d.wait_final("c", ids, timeout=90.0, poll=0.5)
+            out["status"] = [d.status("c", i) for i in ids]
+            d.stop_runners()
+
+        d.run({"c": client})
+        w = d.w
+        common = w.result_common()
+        st = common["stats"]
+        if len(d.worker_procs) > n_workers:
+            st["probe.respawned"] = len(d.worker_procs) - n_workers
+        desc = f"PPR workers={n_workers} bursts={bursts} killed={killed}"
+        if "final" not in out or d.pool_exhausted:
+            common["inconclusive"] = True
+        else:
+            if out["dead_tracked"]:
+                viol.append({"signature": "C14/PPR-live/dead-workers-still-tracked", "message": f"{out['dead_tracked']} dead worker(s) still tracked one virtual second after the last death; {desc}"})
+            if out["alive_after_quiet"] != n_workers:
+                viol.append({"signature": "C14/PPR-live/pool-below-capacity", "message": f"{out['alive_after_quiet']} live workers one virtual second (10 loop iterations) after the last death, configured {n_workers}; {desc}"})
+            if hb_bad:
+                viol.append({"signature": "C14/PPR-live/heartbeat-for-dead-worker", "message": f"heartbeats were reported for dead workers {sorted(set(hb_bad))[:3]}; {desc}"})
+            if not out["final"]:
+                # stranded work after a worker death is C03's subject (known crash windows); here only the pool matters
+                st["probe.work_not_finished_after_deaths"] = 1
+        common.update(
+            {
+                "violations": viol,
+                "nontrivial": bool(killed),
+                "sample": {"runner": "PPR-live", "size": n_workers, "bursts": [list(b) for b in bursts], "killed": killed, "alive_after_quiet": out.get("alive_after_quiet"), "statuses": out.get("status"), "virtual_seconds": round(sim.now - sim.epoch, 1)},
+            }
+        )
+        return common
+
+
 def run(seed: int, params: dict, replay: dict | None = None) -> dict:
+    if params.get("mode") == "live":
+        return _run_live(seed, replay)
     import pynenc.runner.multi_thread_runner as mtr_mod
     import pynenc.runner.persistent_process_runner as ppr_mod
     import pynenc.runner.process_runner as pr_mod
